@@ -1,8 +1,30 @@
 INFO = {
     "level": "proof",
-    "level_text": "The two filters of the built-in trip dispatcher are verified as closures captured from the real enclosing functions (two levels of nesting), for all states: a request is offered to the matching iff it has no dispatched vehicle and (when matching per fleet) grants access to that fleet; a vehicle is offered only if its activity's name is in the configured dispatchable states, its driver is on shift, it passes the fleet-membership test and its remaining range exceeds the thresholds. AssignmentSolution.add and the request sort key (-value, id) (C01) are under contract. The matching itself is scipy's linear_sum_assignment on a numpy cost table.",
-    "level_note": "distinctness of paired vehicles/requests, size = min of the two counts and minimality of the total grid distance are the assumed contract of scipy.optimize.linear_sum_assignment; find_assignment's table-filling loops (in-place numpy writes, boolean-mask assignment) are outside the executor's functional subset and are not verified: that the table holds cost_fn(assignees[i], targets[j]) and that row/column indices are mapped back to the right ids is therefore not decided.",
+    "level_text": "The two filters of the built-in trip dispatcher are verified as closures captured from the real enclosing functions (two levels of nesting), for all states: a request is offered to the matching iff it has no dispatched vehicle and (when matching per fleet) grants access to that fleet; a vehicle is offered only if its activity's name is in the configured dispatchable states, its driver is on shift, it passes the fleet-membership test and its remaining range exceeds the thresholds. AssignmentSolution.add and the request sort key (-value, id) (C01) are under contract. The matching itself is scipy's linear_sum_assignment on a numpy cost table: find_assignment is NOT proved; a bounded stand-in (labelled bounded, not counted among the discharged obligations) runs the real function on every cost table of shape up to 3x3 over a small set of cost values and compares with brute force.",
+    "level_note": "distinctness of paired vehicles/requests, size = min of the two counts and minimality of the total grid distance are the assumed contract of scipy.optimize.linear_sum_assignment; find_assignment's table-filling loops (in-place numpy writes, boolean-mask assignment) are outside the executor's functional subset and are not verified deductively: that the table holds cost_fn(assignees[i], targets[j]) and that row/column indices are mapped back to the right ids is decided only within the stated bound (every table up to 3x3, cost values {0,1,2,3} quick / {0,1,2,3,7} thorough).",
     "trusted_base": ["scipy.optimize.linear_sum_assignment returns a minimum-cost assignment of size min(n, m) with distinct rows and columns", "numpy array semantics"],
     "assumptions": [],
-    "not_decided": ["find_assignment's cost table and index mapping (numpy in-place code)", "optimality of scipy's assignment"],
+    "not_decided": ["find_assignment's cost table and index mapping (numpy in-place code): bounded stand-in only", "optimality of scipy's assignment beyond the bound"],
 }
+
+
+def extra_obligations(repo, world, ex, R, tier, timeout_ms):
+    """bounded stand-in (never counted as proved): the real find_assignment on every cost table of a small shape"""
+    import os, subprocess, time
+    root = os.path.dirname(os.path.dirname(os.path.abspath(__file__)))
+    script = os.path.join(root, "findings", "bounded_C12.py")
+    vals = ["0", "1", "2", "3"] if tier == "quick" else ["0", "1", "2", "3", "7"]
+    hive = os.environ.get("HIVE_REPO", "/repo")
+    cmd = ["/venv/bin/python", script, "3"] + vals
+    t0 = time.time()
+    p = subprocess.run(cmd, capture_output=True, text=True, cwd=hive, env=dict(os.environ, PYTHONPATH=hive), timeout=3000)
+    out = p.stdout.strip().splitlines()
+    hit = any(l.startswith("REPRODUCED") for l in out)
+    ok = (not hit) and p.returncode == 0 and any(l.startswith("not reproduced") for l in out)
+    return [{"id": "C12.bounded.find_assignment.all_tables_up_to_3x3", "kind": "bounded",
+             "status": "held" if ok else ("refuted" if hit else "error"), "backend": "native-exhaustive-enumeration",
+             "secs": round(time.time() - t0, 2), "props": ["C12"],
+             "bound": f"every n x m cost table, n, m <= 3, cost values in {{{', '.join(vals)}}}: one-to-one, size = min(n, m), ids mapped back, "
+                      "cost = sum of pair costs, no cheaper pairing of that size (brute force)",
+             "command": f"cd {hive} && PYTHONPATH={hive} " + " ".join(cmd),
+             "detail": "\n".join(out[-3:])[:800] if not ok else out[-1][:300]}]
